@@ -3448,7 +3448,9 @@ static CK_RV SymDecryptUpdate(Session* session, CK_BYTE_PTR pEncryptedData, CK_U
 		// There must always be one block left in padding mode if next operation is DecryptFinal.
 		// To guarantee that one byte is removed in padding mode when the number of blocks is calculated.
 		size_t paddingAdjustByte = cipher->getPaddingMode() ? 1 : 0;
-		int nrOfBlocks = (ulEncryptedDataLen + remainingSize - paddingAdjustByte) / blockSize;
+		size_t totalSize = ulEncryptedDataLen + remainingSize;
+		// Nothing to adjust when there is no data at all (avoid unsigned underflow).
+		int nrOfBlocks = (totalSize < paddingAdjustByte) ? 0 : (totalSize - paddingAdjustByte) / blockSize;
 		maxSize = nrOfBlocks * blockSize;
 	}
 	if (!cipher->checkMaximumBytes(ulEncryptedDataLen))
@@ -3556,6 +3558,13 @@ static CK_RV SymDecryptFinal(Session* session, CK_BYTE_PTR pDecryptedData, CK_UL
 		}
 		// It is at least one padding byte. If no padding the all remains will be returned.
 		size_t paddingAdjustByte = cipher->getPaddingMode() ? 1 : 0;
+		if (remainingSize < paddingAdjustByte)
+		{
+			// Padding mode needs a final block to remove the padding from.
+			session->resetOp();
+			DEBUG_MSG("No remaining data to remove the padding from");
+			return CKR_ENCRYPTED_DATA_LEN_RANGE;
+		}
 		size = remainingSize - paddingAdjustByte;
 	}
 
